@@ -267,6 +267,17 @@ class Wiring:
                 for n in ast.walk(init):
                     if isinstance(n, ast.Assign) and any(isinstance(t, ast.Name) and t.id == expr.id for t in n.targets):
                         out.extend(self.eval(n.value, owner, init, _depth, env))
+                    elif isinstance(n, ast.Assign) and len(n.targets) == 1 and isinstance(n.targets[0], (ast.Tuple, ast.List)):
+                        # (a, b, c) = (x, y, z)   or   (a, b, c) = (x, y, z) if cond else (u, v, w)   : both arms
+                        names = [t.id if isinstance(t, ast.Name) else None for t in n.targets[0].elts]
+                        if expr.id in names:
+                            i = names.index(expr.id)
+                            arms = [n.value.body, n.value.orelse] if isinstance(n.value, ast.IfExp) else [n.value]
+                            for arm in arms:
+                                if isinstance(arm, (ast.Tuple, ast.List)) and len(arm.elts) == len(names):
+                                    out.extend(self.eval(arm.elts[i], owner, init, _depth, env))
+                                else:
+                                    raise AnalysisError('wiring: unpacking of %s not understood (%s:%d)' % (ast.unparse(arm)[:40], mod.rel, n.lineno))
                     elif isinstance(n, ast.Call) and isinstance(n.func, ast.Attribute) and n.func.attr in ('extend', 'append') \
                             and isinstance(n.func.value, ast.Name) and n.func.value.id == expr.id and len(n.args) == 1:
                         out.extend(self.eval(n.args[0], owner, init, _depth, env))
@@ -978,26 +989,38 @@ def assembly_chain(dateutils):
     return out
 
 
-def assembly_formatters(fmt):
+def assembly_formatters(fmt, idx=None, consts=None):
+    """luis_date / format_date decided by interpretation: any formulation (negated tests, swapped arms, named constants)"""
+    from .c08 import MiniEval, Undetermined
     out = []
     f = fmt.methods.get('luis_date')
     g = fmt.methods.get('format_date')
     if not (f and g):
         raise AnalysisError('anchor vanished: DateTimeFormatUtil.luis_date / format_date')
-    ps = _param_names(f)
-    if len(ps) < 3:
-        raise AnalysisError('luis_date: unexpected parameter list %s' % ps)
-    last = f.body[-1]
-    form = _fstring_form(last.value, {ps[0]: 'Y', ps[1]: 'M', ps[2]: 'D'}) if isinstance(last, ast.Return) else None
-    want = [('Y', '04d'), '-', ('M', '02d'), '-', ('D', '02d')]
-    out.append((f.lineno, 'DateTimeFormatUtil.luis_date', repr(form), form == want,
-                'full-date TIMEX is not {year:04d}-{month:02d}-{day:02d} of its (year, month, day) parameters'))
-    ps = _param_names(g)
-    last = g.body[-1]
-    form = None
-    if isinstance(last, ast.Return) and ps:
-        form = _fstring_form(last.value, {ps[0] + '.year': 'Y', ps[0] + '.month': 'M', ps[0] + '.day': 'D'})
-    out.append((g.lineno, 'DateTimeFormatUtil.format_date', repr(form), form == want,
+    idx = idx or get_index()
+    consts = consts if consts is not None else class_consts(idx, DT + 'constants.Constants')
+
+    def res(node):
+        if isinstance(node, ast.Attribute) and isinstance(node.value, ast.Name) and node.value.id == 'Constants' and node.attr in consts:
+            return consts[node.attr]
+        raise Undetermined('attribute %s' % ast.unparse(node)[:40])
+    table = {(2016, 2, 3): '2016-02-03', (-1, 2, 3): 'XXXX-02-03', (-1, -1, 3): 'XXXX-XX-03', (1999, 12, 31): '1999-12-31'}
+    wrong = []
+    for args, want in table.items():
+        try:
+            got = MiniEval(idx, fmt, res).call(f, list(args))
+        except Undetermined as e:
+            raise AnalysisError('DateTimeFormatUtil.luis_date cannot be interpreted: %s' % e)
+        if got != want:
+            wrong.append('%s -> %r (expected %r)' % (args, got, want))
+    out.append((f.lineno, 'DateTimeFormatUtil.luis_date', 'luis_date%s' % ('; '.join(wrong) if wrong else ' agrees on 4 (year, month, day) cases'),
+                not wrong, 'the date TIMEX is wrong: %s - YYYY-MM-DD of its (year, month, day) parameters, XXXX / XX only for -1' % '; '.join(wrong)))
+    import datetime as _dtm
+    try:
+        got = MiniEval(idx, fmt, res).call(g, [_dtm.datetime(2016, 2, 3, 4, 5, 6)])
+    except Undetermined as e:
+        raise AnalysisError('DateTimeFormatUtil.format_date cannot be interpreted: %s' % e)
+    out.append((g.lineno, 'DateTimeFormatUtil.format_date', 'format_date(2016-02-03 04:05:06) -> %r' % got, got == '2016-02-03',
                 'date value is not {year:04d}-{month:02d}-{day:02d} of the datetime'))
     return out
 
